@@ -4,8 +4,9 @@ Independent of urwid (imports nothing from it). Every function is pure: it retur
 never touches its arguments, which is exactly the "operands are left unchanged" clause.
 
 Cell model (the reading of the property statement that this file fixes):
- * one cell per screen column; a cell is (text, attr, cs): `text` = the bytes (UTF-8) of one
-   character of width >= 1 followed by the zero-width characters that modify it, `attr` = display
+ * one cell per screen column; a cell is (text, attr, cs): `text` = one character of width >= 1
+   followed by the zero-width characters that modify it (a str: how characters are encoded into
+   bytes is the observer's business, not the grid's), `attr` = display
    attribute, `cs` = character-set flag (None or "0");
  * a double-width character occupies two cells: the *base* cell (wide=True) and, to its right, a
    *continuation* cell (text None) that remembers the attribute of the character;
@@ -39,15 +40,15 @@ def char_width(ch: str) -> int:
 
 
 class Cell(NamedTuple):
-    text: bytes | None  # None: right half of the wide character in the cell to the left
+    text: str | None  # None: right half of the wide character in the cell to the left
     attr: object
     cs: object
     wide: bool = False  # base cell of a double-width character
-    pre: tuple = ()  # orphan zero-width characters at the left edge: ((bytes, attr, cs), ...)
+    pre: tuple = ()  # orphan zero-width characters at the left edge: ((str, attr, cs), ...)
 
 
 def space(attr=None, pre=()):
-    return Cell(b" ", attr, None, False, tuple(pre))
+    return Cell(" ", attr, None, False, tuple(pre))
 
 
 class Grid:
@@ -84,11 +85,11 @@ def text_grid(rows_spec, maxcol=None, cursor=None, popup=None):
             if widths and all(w == 0 for w in widths):
                 if cells:
                     raise ValueError("zero-width-only cluster inside a row: attach it to its base character")
-                pre.extend((ch.encode("utf-8"), attr, cs) for ch in s)
+                pre.extend((ch, attr, cs) for ch in s)
                 continue
             if not widths or widths[0] == 0 or any(widths[1:]):
                 raise ValueError(("bad cluster", s))
-            cells.append(Cell(s.encode("utf-8"), attr, cs, widths[0] == 2, tuple(pre)))
+            cells.append(Cell(s, attr, cs, widths[0] == 2, tuple(pre)))
             pre = []
             if widths[0] == 2:
                 cells.append(Cell(None, attr, None))
@@ -114,7 +115,7 @@ def text_grid(rows_spec, maxcol=None, cursor=None, popup=None):
     return Grid(rows, maxcol, coords)
 
 
-def solid_grid(text: bytes, cs, cols, rows):
+def solid_grid(text: str, cs, cols, rows):
     return Grid([[Cell(text, None, cs)] * cols for _ in range(rows)], cols)
 
 
@@ -292,38 +293,14 @@ def row_chars(row):
     out = []
     for c in row:
         for t, a, s in c.pre:
-            out.extend((ch, a, s) for ch in t.decode("utf-8"))
+            out.extend((ch, a, s) for ch in t)
         if c.text is not None:
-            out.extend((ch, c.attr, c.cs) for ch in c.text.decode("utf-8"))
+            out.extend((ch, c.attr, c.cs) for ch in c.text)
     return out
 
 
 def grid_chars(g):
     return [row_chars(r) for r in g.rows]
-
-
-def chars_to_columns(chars):
-    """Regroup a character sequence into per-column cells: [(text, attr, cs) | CONT]; zero-width
-    characters join the cell of the character before them (orphans: kept as a ('pre', ...) prefix of
-    column 0). Raises ValueError on a malformed sequence."""
-    cols = []
-    lead = []
-    for ch, a, s in chars:
-        w = char_width(ch)
-        if w == 0:
-            tgt = lead if not cols else None
-            if tgt is not None:
-                lead.append((ch, a, s))
-            else:
-                i = len(cols) - 1
-                while cols[i] == "CONT":
-                    i -= 1
-                cols[i] = cols[i] + ((ch, a, s),)
-            continue
-        cols.append(((ch, a, s),))
-        if w == 2:
-            cols.append("CONT")
-    return tuple(lead), cols
 
 
 def row_width(chars):
